@@ -104,6 +104,11 @@ Fixpoint flags (l : list fev) : list bool :=
   | FEnd _ :: _ => []
   end.
 
+(* a verdict on a template, restated for the same template saved with CR LF line endings (spec.JsScript.crlf): the
+   contents end at the image of the same symbol *)
+Definition crlf_end (full : list sym) (e : fev) : fev :=
+  match e with FEnd m => FEnd (length (crlf (firstn m full))) | _ => e end.
+
 (* generator.writeScriptContents + the runtime: each expression goes through the escaper the flag selects; an
    expression the parser did not recognise is not rendered here (the model is only used where there is none) *)
 Fixpoint render (fl : list bool) (vals : list bytes) (s : list sym) : bytes :=
